@@ -585,6 +585,28 @@ class Progress:
             return join(r1, r2)
         if nm == 'map' and len(args) == 2 and steps[:2] == [('dc', 1), ('f', 0)] and args[1][0] == 'closure':
             return self.rel_closure(args[1], steps[2:], base, body, depth + 1, strip_ref(args[0]))
+        if nm == 'find_map' and len(args) == 2 and args[1][0] == 'closure' and steps[:2] == [('dc', 1), ('f', 0)]:
+            # find_map over a LITERAL table: the result's Some payload is the closure's Some payload for one of the table's rows
+            rows = [x for x in subterms(args[0]) if isinstance(x, tuple) and x and x[0] == 'array']
+            cb = self.bodies.get(args[1][1])
+            if len(rows) == 1 and rows[0][1] and cb is not None:
+                comps = self.ret_components(cb, tuple(steps))
+                if comps is None:
+                    return UNK
+                if not comps:
+                    return GT
+                worst = None
+                for row in rows[0][1]:
+                    for c in comps:
+                        ct = self.subst(c, {('param', 2): ('closure-arg',)})
+                        ct = self.subst_upvars(ct, args[1][2])
+                        ct = self.subst(ct, {('closure-arg',): row})
+                        r = self.rel(ct, base, body, depth + 1)
+                        worst = r if worst is None else join(worst, r)
+                        if worst == UNK:
+                            return UNK
+                return worst
+            return UNK
         if nm in ('checked_add', 'saturating_add', 'wrapping_add') and len(args) == 2:
             st2 = steps[2:] if steps[:2] == [('dc', 1), ('f', 0)] else (steps if nm != 'checked_add' else None)
             if st2 is not None and not st2:
